@@ -275,6 +275,36 @@ func c17Case(c *explore.Ctx, s *explore.SubStats, in c17Input, cn *c17Canon) {
 			}
 		}
 	}
+	if len(srcs) >= 2 && c17Monotone(in.Perm) {
+		// what the files are called is no part of the type system: every source under one name, and a first source
+		// that is called like the library's own prelude, load into the same schema
+		for _, nm := range []string{"same.graphql", "prelude.graphql"} {
+			var named []*ast.Source
+			for i, x := range srcs {
+				n := x.Name
+				if nm == "same.graphql" || i == 0 {
+					n = nm
+				}
+				named = append(named, &ast.Source{Name: n, Input: x.Input})
+			}
+			var sc *ast.Schema
+			var e error
+			rr := guarded(4000000, 0, func() { sc, e = gqlparser.LoadSchema(named...) })
+			s.Transitions++
+			if rr.Panicked {
+				bad("panic site="+rr.Site+" msg="+normMsg(rr.PanicVal), "LoadSchema panicked with sources named "+nm+": "+rr.PanicVal, "", "")
+				break
+			}
+			if (e == nil) != (err == nil) {
+				bad(fmt.Sprintf("order/source-names loads=%v/%v names=%s", err == nil, e == nil, nm), "whether the sources load depends on what the files are called", fmt.Sprint(err), fmt.Sprint(e))
+				break
+			}
+			if e == nil && schemaDump(sc) != schemaDump(sch) {
+				bad("order/source-names schema names="+nm+" "+firstDiffLine(schemaDump(sch), schemaDump(sc)), "the loaded schema depends on what the source files are called", schemaDump(sch), schemaDump(sc))
+				break
+			}
+		}
+	}
 	if (err == nil) != cn.loads {
 		e := "loads"
 		if err != nil {
@@ -384,7 +414,7 @@ func part(line, comp string) string {
 func runC17(c *explore.Ctx) {
 	k := c.Pick(1, 2)
 	s := c.Sub("permute-split", fmt.Sprintf("every type system = base (3 blocks) + ≤ %d of %d menu items (valid and faulty), (quick: plus every pair of extension items, every extension × described-definition pair, every implements-only item × input object, every directive declaration × item using that directive; every two-source layout of the canonical order and its mirror also in both source orders with either source flagged built-in) under every permutation of its units and every cut of the permuted sequence into 1–3 named sources", k, len(gen.KitMenu)),
-		"(both tiers: plus 3 item triples — two union extensions, one with an undefined member, and an implementer narrowing to the defined member — under all 720 orders) loads ⇔ the canonical order loads; the loaded schemas have equal canonical dumps; a load error names a source that holds a definition involved in a broken rule", "orderings that load")
+		"(both tiers: plus 5 item triples — two union extensions, one with an undefined member, and an implementer narrowing to the defined member; an interface that gets its two parents from two extensions and an implementer listing one of them — under all 720 orders) loads ⇔ the canonical order loads; the loaded schemas have equal canonical dumps; a load error names a source that holds a definition involved in a broken rule", "orderings that load")
 	if s == nil {
 		return
 	}
@@ -553,6 +583,8 @@ func c17Triples() [][]int {
 		{"extend union Result = Extra2", "extend union Result = Spare", "type AR implements HasResult { r: Spare }"},
 		{"extend union Result = Kind", "extend union Result = Spare", "type AR implements HasResult { r: Spare }"},
 		{"extend type Spare implements HasS", "input P10 { ok: [[Kind!]!]! = [[DOG]] d: [Date] }", "extend union Result = Spare"},
+		{"extend interface RE implements Node { id: ID! }", "extend interface RE implements HasNode { n: Node }", "type TE implements RE & Node { id: ID! n: Node }"},
+		{"extend interface RE implements Node { id: ID! }", "extend interface RE implements HasNode { n: Node }", "type TE2 implements RE & HasNode { id: ID! n: Node }"},
 	} {
 		its := []int{find(tr[0]), find(tr[1]), find(tr[2])}
 		sort.Ints(its)
